@@ -53,7 +53,7 @@ func (w *World) coll(h *StoreH, name string) *gkvlite.Collection {
 func (w *World) NewPrivate(h *StoreH, name string) *StoreH {
 	var c *gkvlite.Collection
 	var cmp gkvlite.KeyCompare
-	if Reversed(name, w.cmpByName()) || w.rng.Intn(2) == 0 {
+	if w.isRev(name) || w.rng.Intn(2) == 0 {
 		cmp = w.compareFor(name) // nil every other time: the documented default
 	}
 	if !w.guard("MakePrivateCollection", "C12", func() { c = h.St.MakePrivateCollection(cmp) }) {
@@ -138,7 +138,7 @@ func (w *World) NamesEv(h *StoreH) {
 // picks the priority, read back afterwards).
 func (w *World) SetKV(h *StoreH, name string, key, val []byte, prio int32, useSet bool, ft *memfile.Fault) bool {
 	c := w.coll(h, name)
-	rev := Reversed(name, w.cmpByName())
+	rev := w.isRev(name)
 	ev := Ev{"e": "Set", "s": h.ID, "c": w.U.NameID(name), "k": w.U.KeyID(key, rev),
 		"kl": len(key), "vl": len(val), "vnil": val == nil, "v": w.U.ValID(val, true), "p": int(prio)}
 	var err error
@@ -182,7 +182,7 @@ func (w *World) SetKV(h *StoreH, name string, key, val []byte, prio int32, useSe
 
 func (w *World) Del(h *StoreH, name string, key []byte, ft *memfile.Fault) bool {
 	c := w.coll(h, name)
-	rev := Reversed(name, w.cmpByName())
+	rev := w.isRev(name)
 	ev := Ev{"e": "Del", "s": h.ID, "c": w.U.NameID(name), "k": w.U.KeyID(key, rev)}
 	var res bool
 	var err error
@@ -212,7 +212,7 @@ func (w *World) itemRes(name string, i *gkvlite.Item) []Ev {
 // Get via GetItem (withValue wv) or via Get() (api "get": value only).
 func (w *World) Get(h *StoreH, name string, key []byte, wv bool, ft *memfile.Fault) bool {
 	c := w.coll(h, name)
-	rev := Reversed(name, w.cmpByName())
+	rev := w.isRev(name)
 	ev := Ev{"e": "Get", "s": h.ID, "c": w.U.NameID(name), "k": w.U.KeyID(key, rev), "wv": wv}
 	var it *gkvlite.Item
 	var err error
@@ -255,7 +255,7 @@ func (w *World) Get(h *StoreH, name string, key []byte, wv bool, ft *memfile.Fau
 
 func (w *World) Exist(h *StoreH, name string, key []byte) bool {
 	c := w.coll(h, name)
-	rev := Reversed(name, w.cmpByName())
+	rev := w.isRev(name)
 	ev := Ev{"e": "Exist", "s": h.ID, "c": w.U.NameID(name), "k": w.U.KeyID(key, rev)}
 	var res bool
 	w.begin(h, nil)
@@ -329,7 +329,7 @@ func (w *World) LenEv(h *StoreH, name string, ft *memfile.Fault) bool {
 // EnumEv runs VisitItemsAscendBlockEx (random mangler) or VisitItemsRandom.
 func (w *World) EnumEv(h *StoreH, name string, random bool) bool {
 	c := w.coll(h, name)
-	rev := Reversed(name, w.cmpByName())
+	rev := w.isRev(name)
 	ev := Ev{"e": "Enum", "s": h.ID, "c": w.U.NameID(name), "random": random}
 	keys := []int{}
 	var err error
@@ -493,7 +493,7 @@ func (w *World) ValueBurst(h *StoreH, readers, opsEach int) bool {
 // targetFor maps a target id (0 = below all, K+1 = above all, else a key of
 // the universe) to bytes under the collection's order.
 func (w *World) targetFor(name string, tid int) []byte {
-	rev := Reversed(name, w.cmpByName())
+	rev := w.isRev(name)
 	K := len(w.U.Keys)
 	switch {
 	case tid <= 0:
